@@ -106,6 +106,11 @@ def wave_tables(e):
     return p, rr, Lam, Lph
 
 
+# set by check_c06: called with a state that sits exactly on a lattice point, a small data set with bases and the
+# oracle's gradients for it, after everything C03 compares (the hook may train the state: it is not used again)
+STEP_HOOK = None
+
+
 def replay_wave(chk, e, n, rng, exp_table):
     B, nv, nh = e["B"], e["nv"], e["nh"]
     pt = dict(nv=nv, nh=nh, B=B, am=e["am"], ph=e["ph"])
@@ -242,11 +247,13 @@ def replay_wave(chk, e, n, rng, exp_table):
     by_name(chk, "complex:compute_exact_gradients:am", cx, "rbm_am", ex[0], nll["am"], e["layout"], dict(det, state_type="complex"), ttol + tolz)
     by_name(chk, "complex:compute_exact_gradients:ph", cx, "rbm_ph", ex[1], nll["ph"], e["layout"], dict(det, state_type="complex"), ttol + tolz)
     chk.nontriv(("wave", str(pt), str(bases)))
+    if STEP_HOOK:
+        STEP_HOOK("complex", cx, rows, bases, tot, Lam, e["layout"], ttol, pt)
 
 
-def run_wave(chk, tier, rng, seed):
+def run_wave(chk, tier, rng, seed, few=False):
     quick = tier == "quick"
-    pts = [lattice.random_point(rng, nvmax=3, nhmax=3 if quick else 4, budget=1700) for _ in range(60 if quick else 800)]
+    pts = [lattice.random_point(rng, nvmax=3, nhmax=3 if quick else 4, budget=1700) for _ in range(15 if few else 60 if quick else 800)]
     pf = lattice.PointsFile(pts)
     try:
         res = tlc.run("GradRBM", constants={"TMax": 1800, "Lanes": 32},
@@ -264,7 +271,7 @@ def run_wave(chk, tier, rng, seed):
         return []
     exps = res.exports
     enum = [e for e in exps if e["idx"] == 0]        # TLC checked all of them; a seeded sample is replayed
-    exps = [e for e in exps if e["idx"] > 0] + rng.sample(enum, min(100 if quick else 2500, len(enum)))
+    exps = [e for e in exps if e["idx"] > 0] + rng.sample(enum, min(10 if few else 100 if quick else 2500, len(enum)))
     tables = {}
     for n, e in enumerate(exps):
         if e["nv"] not in tables:
@@ -425,11 +432,13 @@ def replay_dm(chk, e, n, rng, exp_table):
     if any(ex[1][q].item() != 0.0 for q in dq) or any(g[1][q].item() != 0.0 for q in dq):
         chk.violation("density:phase-aux-bias-gradient-nonzero", dict(det, got=[ex[1][q].item() for q in dq]))
     chk.nontriv(("dm", str(pt), str(bases)))
+    if STEP_HOOK:
+        STEP_HOOK("density", st, rows, bases, tot, lE, e["layout"], ttol, pt)
 
 
-def run_dm(chk, tier, rng, seed):
+def run_dm(chk, tier, rng, seed, few=False):
     quick = tier == "quick"
-    pts = [lattice.random_purif_point(rng, nvmax=2 if quick else 3, nhmax=2, namax=2) for _ in range(40 if quick else 500)]
+    pts = [lattice.random_purif_point(rng, nvmax=2 if quick else 3, nhmax=2, namax=2) for _ in range(12 if few else 40 if quick else 500)]
     pf = lattice.PointsFile(pts)
     try:
         res = tlc.run("GradDM", constants={"TMax": 1800, "Lanes": 32},
@@ -448,7 +457,7 @@ def run_dm(chk, tier, rng, seed):
         return []
     exps = res.exports
     enum = [e for e in exps if e["idx"] == 0]
-    exps = [e for e in exps if e["idx"] > 0] + rng.sample(enum, min(60 if quick else 1200, len(enum)))
+    exps = [e for e in exps if e["idx"] > 0] + rng.sample(enum, min(10 if few else 60 if quick else 1200, len(enum)))
     tables = {}
     for n, e in enumerate(exps):
         nv = e["pt"]["nv"]
